@@ -27,6 +27,13 @@ Theorem C07_cow_refines_values ops o : let s := run ops empty_store in
 Proof. exact (cow_refines_values ops o). Qed.
 Print Assumptions C07_cow_refines_values.
 
+(* Whole histories: the meaning of the state reached by ANY history on the copy-on-write
+   machine is the state reached by the same history on the value-semantics specification
+   (vrun: every name holds its own value), at every name. *)
+Theorem C07_history_refines ops x : abs (run ops empty_store) x = vrun ops (fun _ => ANone) x.
+Proof. exact (history_refines ops x). Qed.
+Print Assumptions C07_history_refines.
+
 (* "never alias observably": a name that is not a target of the operation keeps its value,
    whatever sharing exists underneath (x and z may share one buffer before the step). *)
 Theorem C07_never_alias ops o z : let s := run ops empty_store in
